@@ -130,14 +130,19 @@ Definition guaranteed_ok (st : list status) (liso riso : list bool) : bool :=
                     | SN => true
                     end) (seq 0 (length st)).
 
-(* a whole observed history: after every call the implementation's record equals the
-   model's and the model's guarantees hold of the measured state *)
-Fixpoint history_check (s : mstate) (h : list (op * (rcd * (list bool * list bool)))) : bool :=
-  match h with
-  | [] => true
-  | (o, (r, (li, ri))) :: t =>
-      let s' := apply_op o s in
-      rcd_eqb (snd s') r && guaranteed_ok (fst s') li ri && history_check s' t
-  end.
+(* one observed call of a history: the model is run through the calls made before it, then the
+   implementation's record after the call must equal the model's and the model's guarantees
+   must hold of the measured state *)
+Definition step_check (s0 : mstate) (before : list op) (o : op) (r : rcd) (li ri : list bool) : bool :=
+  let s' := apply_op o (run_ops before s0) in
+  rcd_eqb (snd s') r && guaranteed_ok (fst s') li ri.
 
 Definition generic (L : nat) : list status := repeat SN L.
+
+(* the state a history starts from: nothing known (RUnset / RNone / RCalc) or a record that the
+   harness has measured to be true of the initial state *)
+Definition init_state (L : nat) (r : rcd) : mstate :=
+  match r with
+  | RPair a b => (assume a b (generic L), r)
+  | _ => (generic L, r)
+  end.
